@@ -45,7 +45,9 @@ def gen_history(rng, case, n_ops, change_ops=True):
             if i == case.get("wide"):
                 continue
             ne = min(abs(vals[i]) * 0.2, max(abs(vals[i]) * 1e-6, errs[i] * 10 ** rng.uniform(-1, 1)))
-            if vals[i] == 0.0:
+            if errs[i] == 0.0:
+                ne = (abs(vals[i]) or 1.0) * 10 ** rng.uniform(-3, -1)    # an exact source gets an uncertainty
+            elif vals[i] == 0.0:
                 ne = errs[i] * 10 ** rng.uniform(-0.5, 0.5)
             if vals[i] != 0.0 and rng.random() < 0.35:
                 # the other way to revise an uncertainty: as a fraction of the central value
@@ -58,6 +60,8 @@ def gen_history(rng, case, n_ops, change_ops=True):
                 ops.append(["setError", i, bits(ne)])
         elif change_ops and r < 0.28 and nm >= 2:
             i, j = rng.sample(range(nm), 2)
+            if errs[i] == 0.0 or errs[j] == 0.0:
+                continue      # the library refuses a correlation with an exact quantity
             rr = rng.uniform(-0.3, 0.3) if rng.random() < 0.85 else 0.0
             rho[(min(i, j), max(i, j))] = rr
             ops.append(["setCorr", i, j, bits(rr)])
@@ -92,11 +96,12 @@ def gen_history(rng, case, n_ops, change_ops=True):
         for k, nd in enumerate(case["nodes"]):
             deps[k] = {nd[1]} if nd[0] == "var" else set() if nd[0] in ("const", "pair") else \
                 set().union(*[deps[j] for j in nd[2:]])
-        joint = [n for n in qn if len({i for i in deps[n] if vals[i] != 0.0
+        joint = [n for n in qn if len({i for i in deps[n] if vals[i] != 0.0 and errs[i] > 0.0
                                        and i != case.get("wide")}) >= 2]
         if joint:
             n = rng.choice(joint[-3:])
-            src = sorted(i for i in deps[n] if vals[i] != 0.0 and i != case.get("wide"))
+            src = sorted(i for i in deps[n] if vals[i] != 0.0 and errs[i] > 0.0
+                         and i != case.get("wide"))
             neg = [i for i in src if vals[i] < 0]
             i = rng.choice(neg or src)
             j = rng.choice([x for x in src if x != i])
@@ -110,6 +115,41 @@ def gen_history(rng, case, n_ops, change_ops=True):
                 ops.append(["setMethod", n, "monte-carlo"])
                 ops.append(["recalc", n])
                 ops.append(["read", n])
+    if change_ops and rng.random() < 0.3:
+        # deliberate scenario: a result is read, the method is switched away, a source changes, the
+        # result is recalculated WHILE the other method is in force, the method is switched back:
+        # the read that follows must be the formula at the current state (oracle: built afresh)
+        deps = {}
+        for k, nd in enumerate(case["nodes"]):
+            deps[k] = {nd[1]} if nd[0] == "var" else set() if nd[0] in ("const", "pair") else \
+                set().union(*[deps[j] for j in nd[2:]])
+        cand = [n for n in qn if any(i != case.get("wide") for i in deps[n])]
+        if cand:
+            n = rng.choice(cand[-3:])
+            i = rng.choice(sorted(x for x in deps[n] if x != case.get("wide")))
+            away = rng.choice(["node", "global"])
+            ops.append(["setGlobal", "derivative"])
+            ops.append(["resetMethod", n])
+            ops.append(["read", n])
+            ops.append(["setMethod", n, "monte-carlo"] if away == "node" else ["setGlobal", "monte-carlo"])
+            if rng.random() < 0.5:
+                ops.append(["read", n])
+            for _try in range(10):
+                trial = list(vals)
+                trial[i] = vals[i] * (1 + rng.uniform(-0.3, 0.3)) if vals[i] != 0.0 else vals[i]
+                if exprgen.ref_eval_all(case, trial) is not None:
+                    break
+            else:
+                trial = list(vals)
+            if trial[i] != vals[i]:
+                vals = trial
+                ops.append(["setValue", i, bits(vals[i])])
+            else:
+                errs[i] = (errs[i] or abs(vals[i]) * 1e-3 or 1e-3) * 1.5
+                ops.append(["setError", i, bits(errs[i])])
+            ops.append(["recalc", n])
+            ops.append(["setMethod", n, "derivative"] if away == "node" else ["setGlobal", "derivative"])
+            ops.append(["readFresh", n])
     return ops
 
 
@@ -121,13 +161,20 @@ def gen_case(rng, n_ops, change_ops=True):
         # every measurement needs a non-zero uncertainty (Monte Carlo reads are compared by identity)
         c["errs"] = [bits(max(unbits(e), abs(unbits(v)) * 1e-4)) for v, e in zip(c["vals"], c["errs"])]
         c["rho"] = []
+        if change_ops and c["n_meas"] >= 2 and rng.random() < 0.25:
+            # one EXACT source (no uncertainty when the formulas are assembled); the history may
+            # give it an uncertainty or another value later
+            c["errs"][rng.randrange(c["n_meas"])] = bits(0.0)
+        # the sources may be the entries of ONE MeasurementArray (values then also change through
+        # item assignment on the array)
+        c["via_array"] = bool(change_ops and not c.get("raw") and rng.random() < 0.3)
         # sometimes a WIDE source under a domain-restricted operator: part of the Monte Carlo
         # draws is then undefined and discarded (the stored simulation is shorter than requested)
         restricted = {"sqrt", "ln", "log10", "asin", "acos"}
         direct = [c["nodes"][n[2]][1] for n in c["nodes"]
                   if n[0] == "un" and n[1] in restricted and c["nodes"][n[2]][0] == "var"]
         c["wide"] = None
-        direct = [i for i in direct if unbits(c["vals"][i]) != 0.0]
+        direct = [i for i in direct if unbits(c["vals"][i]) != 0.0 and unbits(c["errs"][i]) > 0.0]
         if direct and rng.random() < 0.6:
             i = rng.choice(direct)
             c["errs"][i] = bits(abs(unbits(c["vals"][i])) * rng.uniform(0.45, 0.8))
@@ -149,6 +196,7 @@ def run_impl(q, case, np_seed=1, mc_size=50, string_forms=True):
         warnings.simplefilter("ignore")
         try:
             objs, meas = exprgen.build_impl(q, case)
+            src_array = exprgen.LAST_ARRAY if case.get("via_array") else None
             for m, u in zip(meas, case.get("units", [])):
                 m.unit = u
             for o in quantity_nodes(case):
@@ -170,7 +218,12 @@ def run_impl(q, case, np_seed=1, mc_size=50, string_forms=True):
             try:
                 if t == "setValue":
                     v = unbits(op[2])
-                    meas[op[1]].value = int(v) if v.is_integer() and k % 2 else v
+                    arr = src_array
+                    if arr is not None and k % 3 != 1:
+                        # the same request through the array the source is an entry of
+                        arr[op[1] if k % 3 else op[1] - len(arr)] = int(v) if v.is_integer() and k % 2 else v
+                    else:
+                        meas[op[1]].value = int(v) if v.is_integer() and k % 2 else v
                     vals[op[1]] = v
                     obs.append({"t": "ok"})
                 elif t == "setError":
@@ -195,7 +248,8 @@ def run_impl(q, case, np_seed=1, mc_size=50, string_forms=True):
                 elif t == "read":
                     d = objs[op[1]]
                     ob = {"t": "read", "v": float(d.value), "e": float(d.error),
-                          "method": d.error_method.value, "unit": d.unit}
+                          "method": d.error_method.value, "unit": d.unit,
+                          "rel": float(d.relative_error)}
                     if ob["method"] == "monte-carlo":
                         # the simulation the quantity keeps (public accessor; the default summary
                         # of a simulation is the mean and the sample standard deviation)
@@ -245,8 +299,26 @@ def run_impl(q, case, np_seed=1, mc_size=50, string_forms=True):
                         objs[op[1]].error_method = q.ErrorMethod(op[2])
                     obs.append({"t": "ok"})
                 elif t == "resetMethod":
-                    objs[op[1]].reset_error_method()
+                    if k % 2:
+                        objs[op[1]].reset_error_method()
+                    else:       # the documented marker for "follow the global setting"
+                        objs[op[1]].error_method = q.ErrorMethod.AUTO
                     obs.append({"t": "ok"})
+                elif t == "readFresh":
+                    d = objs[op[1]]
+                    ob = {"t": "read", "v": float(d.value), "e": float(d.error),
+                          "method": d.error_method.value, "unit": d.unit,
+                          "rel": float(d.relative_error)}
+                    c2 = dict(case)
+                    c2["vals"] = [bits(x) for x in vals]
+                    c2["errs"] = [bits(x) for x in errs]
+                    c2["rho"] = rho
+                    _pyrandom.seed(12345)
+                    o2, _ = _rebuild_with_units(q, c2, case.get("units", []))
+                    f = o2[op[1]]
+                    f.error_method = "derivative"
+                    ob["fresh"] = {"v": float(f.value), "e": float(f.error)}
+                    obs.append(ob)
                 elif t == "setSize":
                     objs[op[1]].mc.sample_size = op[2]
                     obs.append({"t": "ok"})
@@ -332,6 +404,8 @@ def model_line(case):
     for o in case["ops_hist"]:
         if o[0] in ("fault", "newGroup"):
             o = ["readDeriv", quantity_nodes(case)[0], 0]
+        elif o[0] == "readFresh":
+            o = ["read", o[1]]
         ops.append(o)
     return {"cmd": "world", "nodes": exprgen.model_nodes(case["nodes"]), "vals": case["vals"],
             "errs": case["errs"], "rho": case["rho"], "ops": ops}
@@ -370,7 +444,32 @@ def judge(what, case, obs, mod):
             break
         if op[0] in ("setValue", "setError", "setRel", "setCorr", "resetCorr"):
             changed_since = True
-        if op[0] == "read":
+        if op[0] in ("read", "readFresh") and "rel" in o:
+            want_rel = o["e"] / o["v"] if o["v"] != 0 else 0.0
+            if not abs(o["rel"] - want_rel) <= 1e-12 * abs(want_rel) + 1e-300:
+                failures.append({"signature": "{}:relative-error-read".format(what),
+                                 "oracle": "independent", "kind": "violation",
+                                 "what": "{}: relative_error reads {} but value and uncertainty read "
+                                         "{} and {} (ratio {}) under the same method".format(
+                                             where, o["rel"], o["v"], o["e"], want_rel),
+                                 "input": hist_str(case), "case": case, "op_index": k,
+                                 "clause": "reports results by the method selected"})
+                model_failed = True
+                continue
+        if op[0] == "readFresh" and "fresh" in o and o["method"] == "derivative":
+            f = o["fresh"]
+            if not (abs(o["v"] - f["v"]) <= 1e-9 * (abs(o["v"]) + abs(f["v"])) + 1e-300 and
+                    abs(o["e"] - f["e"]) <= 1e-9 * (abs(o["e"]) + abs(f["e"])) + 1e-300):
+                failures.append({"signature": "{}:stale-after-recalculate".format(what),
+                                 "oracle": "independent", "kind": "violation",
+                                 "what": "{}: the result was recalculated after the last change "
+                                         "(while another method was in force) but reads ({}, {}); "
+                                         "the same formula built afresh gives ({}, {})".format(
+                                             where, o["v"], o["e"], f["v"], f["e"]),
+                                 "input": hist_str(case), "case": case, "op_index": k,
+                                 "clause": "recalculate brings value and uncertainty up to date"})
+                break
+        if op[0] in ("read", "readFresh"):
             want = "derivative" if m["t"] == "d" else "monte-carlo"
             if o["method"] != want:
                 failures.append({"signature": "{}:effective-method".format(what),
